@@ -168,7 +168,14 @@ impl FileUploadSession {
         {
             let mut upload_tasks = self.xorb_upload_tasks.lock().await;
             while let Some(result) = upload_tasks.try_join_next() {
-                result??;
+                if let Err(e) = result.map_err(DataProcessingError::from).and_then(|r| r) {
+                    // The failure is reported to this caller, but it must stay visible to finalize() as well:
+                    // a session in which a xorb upload failed must never go on to upload its shards.
+                    upload_tasks.spawn(async {
+                        Err(DataProcessingError::UploadTaskError("an earlier xorb upload failed".to_owned()))
+                    });
+                    return Err(e);
+                }
             }
         }
 
